@@ -182,10 +182,46 @@ fn run<C: CI>(ctx: &mut Ctx) {
     });
 }
 
+/// one amino acid with very many codons (counters narrower than the number of preimages)
+fn many_preimages(ctx: &mut Ctx) {
+    ctx.group("dna/many-preimages", |ctx| {
+        let d = model::dna();
+        let counts: Vec<usize> = if ctx.lite { vec![5] } else { vec![3, 127, 128, 129, 255, 256] };
+        for total in counts {
+            // all DNA 4-mers in order, the first `total` of them map to one amino acid; one more codon of
+            // length 3 brings 256 to 257
+            let mut m: BTreeMap<Vec<u8>, u8> = BTreeMap::new();
+            for v in 0..total.min(256) {
+                m.insert(vec![(v & 3) as u8, ((v >> 2) & 3) as u8, ((v >> 4) & 3) as u8, ((v >> 6) & 3) as u8], b'L');
+            }
+            for extra in [0usize, 1, 2] {
+                if extra > 0 {
+                    m.insert(vec![extra as u8, 0, 3], b'L');
+                }
+                m.insert(vec![0, 1], b'M'); // a unique one, and an absent one ('W')
+                for rep in 0..ctx.n(4, 40, 1) {
+                    let mut hm: HashMap<Seq<Dna>, Amino> = HashMap::new();
+                    for (k, v) in &m {
+                        hm.insert(mk::<Dna>(k), amino_sym(*v));
+                    }
+                    match observe(|| CodonTable::<Dna, Amino>::from_map(hm)) {
+                        Ok(t) => judge::<Dna>(ctx, &t, &m, "HashMap-many-preimages", rep != 0),
+                        Err(pm) => check!(ctx, false, "from_map|dna|panics".to_string(), "from_map of {} entries ({} codons for one amino acid) panicked: {pm}", m.len(), m.values().filter(|v| **v == b'L').count()),
+                    }
+                }
+                cell!(ctx, "dna/many-preimages/{}", m.values().filter(|v| **v == b'L').count());
+                ctx.nontrivial(fp(&[b"many", &[extra as u8], &(total as u32).to_le_bytes()]));
+            }
+        }
+        let _ = d;
+    });
+}
+
 fn main() {
     run_main("C15", |ctx| {
         run::<Dna>(ctx);
         run::<Iupac>(ctx);
-        ctx.note("rule", json!("generated maps from DNA and IUPAC codons of length 1..4 (uniform and mixed lengths, keys with trailing zero-coded symbols over-represented) to amino symbols with 0/1/2/3+ preimages, 0..64 entries; each map constructed 30 (thorough 500) times from a fresh HashMap (fresh RandomState; the iteration order of the very map handed to from_map is observed and counted) and from an array; queries: every key at bit offsets and as owned Seq, one-symbol neighbours, prefixes, keys extended by one/two zero-coded or random symbols, keys with trailing zero symbols stripped, the empty codon; every amino symbol in reverse. Distinct = (codec, map)."));
+        many_preimages(ctx);
+        ctx.note("rule", json!("generated maps from DNA and IUPAC codons of length 1..4 (uniform and mixed lengths, keys with trailing zero-coded symbols over-represented) to amino symbols with 0/1/2/3+ preimages, 0..64 entries; each map constructed 30 (thorough 500) times from a fresh HashMap (fresh RandomState; the iteration order of the very map handed to from_map is observed and counted) and from an array; queries: every key at bit offsets and as owned Seq, one-symbol neighbours, prefixes, keys extended by one/two zero-coded or random symbols, keys with trailing zero symbols stripped, the empty codon; every amino symbol in reverse; tables in which one amino acid has 3, 127..129, 255, 256, 257, 258 codons. Distinct = (codec, map)."));
     });
 }
